@@ -330,7 +330,11 @@ func (e *Engine) DoBounce(st *Step) error {
 	defer func() { e.cur = nil }()
 	e.Stats.Faults["bounce_restart"]++
 	r.crashNow()
-	return e.C.StartReplica(r)
+	err := e.C.StartReplica(r)
+	if _, ok := err.(SimCrash); ok {
+		return nil // the scheduler crashed it again during the handshake; a later restart step revives it
+	}
+	return err
 }
 
 // DoJoin adds a replica mid-run: it boots from genesis and is fed the whole canonical chain.
